@@ -34,6 +34,7 @@ PB  == Pod("ns2", "b-x1", "b", L1("app", "b"), <<>>)
 PBv == Pod("ns2", "b-x1", "b", L1("app", "a"), <<>>)          \* same pod, relabelled
 PC  == Pod("ns2", "c", "", L1("app", "a"), <<CP("http", "UDP", 2)>>)
 PA1p == Pod("ns1", "a-x1", "a", L1("app", "a"), <<CP("http", "UDP", 2)>>)   \* same pod, same labels, its named port re-declared
+PD   == Pod("ns2", "a-x1", "a", L1("app", "a"), <<CP("http", "TCP", 2)>>)    \* a twin of PA1 (same owner name, labels, ports) in another namespace
 PA3  == Pod("ns1", "a-x3", "a", L1("app", "a"), <<CP("web", "TCP", 2)>>)    \* a sibling of the same owner and labels whose template differs
 
 Blk(lo, hi) == [all |-> FALSE, lo |-> lo, hi |-> hi]
@@ -84,7 +85,7 @@ OpsFull ==
     [op |-> "DelNs", name |-> "ns1"], [op |-> "DelNs", name |-> "ns2"],
     [op |-> "InsPod", pod |-> PA1], [op |-> "InsPod", pod |-> PA2], [op |-> "InsPod", pod |-> PB],
     [op |-> "InsPod", pod |-> PBv], [op |-> "InsPod", pod |-> PC], [op |-> "InsPod", pod |-> PA1p], [op |-> "InsPod", pod |-> PA3],
-    [op |-> "DelPod", ns |-> "ns1", name |-> "a-x3"],
+    [op |-> "DelPod", ns |-> "ns1", name |-> "a-x3"], [op |-> "InsPod", pod |-> PD], [op |-> "DelPod", ns |-> "ns2", name |-> "a-x1"],
     [op |-> "DelPod", ns |-> "ns1", name |-> "a-x1"], [op |-> "DelPod", ns |-> "ns1", name |-> "a-x2"],
     [op |-> "DelPod", ns |-> "ns2", name |-> "b-x1"], [op |-> "DelPod", ns |-> "ns2", name |-> "c"],
     [op |-> "DelPod", ns |-> "ns2", name |-> "nosuch"],
@@ -112,7 +113,7 @@ Ops == IF Small THEN OpsSmall ELSE OpsFull
 
 (* the fixed prefix: a populated engine with a warm cache *)
 Prefix == << [op |-> "InsNs", nso |-> Ns("ns1", L1("team", "x"))], [op |-> "InsNs", nso |-> Ns("ns2", L1("team", "y"))],
-             [op |-> "InsPod", pod |-> PA1], [op |-> "InsPod", pod |-> PA2], [op |-> "InsPod", pod |-> PB], [op |-> "InsPod", pod |-> PC],
+             [op |-> "InsPod", pod |-> PA1], [op |-> "InsPod", pod |-> PA2], [op |-> "InsPod", pod |-> PB], [op |-> "InsPod", pod |-> PC], [op |-> "InsPod", pod |-> PD],
              [op |-> "InsNP", np |-> NP1], [op |-> "InsNP", np |-> NP2], [op |-> "InsNP", np |-> NP3], [op |-> "InsANP", anp |-> ANPA], O("Sweep") >>
 
 RECURSIVE ApplyAll(_, _)
